@@ -368,6 +368,7 @@ def run(rep, tier):
         c16.chunk_size_rule(facts, rep)
         c16.clause_a(facts, rep, '')       # a pool on a user buffer: the capacity accounts for the alignment skip
         clause_digit_capacity(facts, rep)
+        c16.round_up_rule(facts, rep)      # ... and the rounded size is never below the request
     rep.min_instances('E1.status', 20)
     rep.trust('clang 14 parser/template instantiation/CFG builder', 'sv/primitives.py load widths',
               'libc realloc/free/memcpy semantics')
